@@ -423,4 +423,45 @@ def run(rep, ctx):
             render(inc) in ("++i", "i++")
     p2.check(okp, "objective-loop", short_loc(f.loc),
              "for (i = 0; i < num_objs; ++i) Convert(GetModel().obj(i))")
+    # ---- K1: the constant of the selected objective's nonlinear part -------------------------------------------------
+    k1 = rep.rule("C12.K1", "GUARD", "the constant term of the objective's expression is delivered (as a fixed variable) for every non-zero constant, of either sign", floor=1)
+    Fo = Facts(export_many([dict(unit="solvers/visitor/visitor-modelapi-connect.cc", fn=[r"mp::ProblemFlattener::Convert"], repo=repo)]))
+    cvo = [g for g in Fo.funcs if g.qn == "mp::ProblemFlattener::Convert" and not g.is_dependent() and g.cfg is not None and g.params and
+           "MutObjective" in ((g.params[0].get("t") or "") + (g.params[0].get("ct") or "") + g.full)]
+    if not cvo:
+        cvo = [g for g in Fo.funcs if g.qn == "mp::ProblemFlattener::Convert" and not g.is_dependent() and g.cfg is not None and
+               any(c_["k"] == "CXXMemberCallExpr" and (c_.get("callee") or "").endswith("::nonlinear_expr") for c_ in g.walk())]
+    if not cvo:
+        raise AnalysisBroken("C12.K1: ProblemFlattener::Convert(MutObjective) not found")
+    g = cvo[0]
+    adds = [c_ for c_ in g.walk() if c_["k"] == "CXXMemberCallExpr" and (c_.get("callee") or "").split("::")[-1] == "add_term" and "constant_term()" in render(c_)]
+    okk, whyk = len(adds) == 1, "%d add_term calls carrying the constant" % len(adds)
+    if okk:
+        a_ = call_args(adds[0])
+        okk = cv(a_[0]) == 1 and "MakeFixedVar(" in render(a_[1])
+        whyk = "the constant is added as `%s`" % render(adds[0])[:80]
+    if okk:
+        conds = [(g.nodes[cid], pol) for cid, pol in g.cfg.facts_at(adds[0]) if "constant_term()" in render(g.nodes[cid])]
+        bad = []
+        for c_ in (-2.5, -1e-30, 0.0, 1e-30, 3.0):
+            box = {}
+
+            def atom(t_, n_, env_, c_=c_):
+                if n_["k"] == "CXXMemberCallExpr" and (n_.get("callee") or "").endswith("::constant_term"):
+                    return c_
+                if n_["k"] == "CallExpr" and (n_.get("callee") or "").split("::")[-1] in ("fabs", "abs") and len(call_args(n_)) == 1:
+                    return abs(box["mi"].expr(call_args(n_)[0], env_, 0))
+                return None
+            mi = MiniInt(Fo, atom)
+            box["mi"] = mi
+            try:
+                taken = all(bool(mi.expr(n_, {}, 0)) == bool(pol) for n_, pol in conds)
+            except AnalysisBroken as e_:
+                raise AnalysisBroken("C12.K1: guard of the objective constant: %s" % e_)
+            if taken != (c_ != 0.0):
+                bad.append((c_, taken))
+        okk = not bad
+        whyk = "(constant, delivered) = %s" % bad
+    k1.check(okk, "objective-constant", short_loc(g.loc), "a non-zero constant of the objective expression reaches the solver, zero adds nothing",
+             "%s: the solver receives the objective without (part of) its constant" % whyk)
     return rep
